@@ -42,7 +42,8 @@ def _one(sc):
         r = appsim.run_real(sc, wall_s=sc.get("wall_s", 15.0))
         return {"trace": r.trace, "alive": r.alive, "leaked": r.leaked, "outcome": list(r.outcome),
                 "abort": r.abort, "stalls": len(r.select_stalls), "badframes": len(r.badframes),
-                "live_max": r.live_max, "lines": r.lines, "fired_at": r.fired_at, "wall": time.time() - t0}
+                "live_max": r.live_max, "lines": r.lines, "fired_at": r.fired_at, "wall": time.time() - t0,
+                "requests": r.requests}
     except BaseException as e:  # noqa  (a crash of the harness itself is reported as a case, not hidden)
         return {"trace": "", "alive": [], "leaked": [], "outcome": ["harness-error", repr(e)], "abort": "harness",
                 "stalls": 0, "badframes": 0, "live_max": 0, "lines": 0, "fired_at": None, "wall": time.time() - t0}
